@@ -172,6 +172,17 @@ def step (st : St) : List String → St × String
       let st' := { st with pool := p', gates := if p'.tasks.length > before then st.gates ++ [gateOf st d] else st.gates }
       poolDelta (settle st')
     | _, _ => (st, "bad-op")
+  | "parrn" :: sid :: _wire :: _k :: exts =>
+    -- k complete requests in one read; the model takes them in their extracted form (extraction exactness is C15's)
+    match sid.toNat?, exts.mapM ofHex with
+    | some sid, some ds =>
+      let P := poolParams st
+      let add (st : St) (d : Bytes) : St :=
+        let before := st.pool.tasks.length
+        let p' := stepPool P st.pool (.arrive sid d)
+        { st with pool := p', gates := if p'.tasks.length > before then st.gates ++ [gateOf st d] else st.gates }
+      poolDelta (settle (ds.foldl add st))
+    | _, _ => (st, "bad-op")
   | ["prel", k] =>
     match k.toNat? with
     | some k => poolDelta (settle { st with opened := k :: st.opened })
